@@ -46,6 +46,11 @@ class StubScenario:
         # ... and so are private (non-dunder) methods of its classes, called on instance records
         inl |= {f.fq for f in repo.module(ST).functions.values() if f.cls is not None and f.qualname.split(".")[-1].startswith("_")
                 and not f.qualname.split(".")[-1].startswith("__")}
+        if inline:
+            # helpers of the stub module that have been moved to the package's utility modules are interpreted like the ones that stayed
+            for um in ("monkeytype.util", "monkeytype.compat"):
+                if um in repo.modules:
+                    inl |= {f.fq for f in repo.modules[um].functions.values() if f.cls is None and f.qualname not in ("get_name_in_module", "get_func_in_module", "get_func_fqname")}
         self.ri = RepoInterp(repo, self.fi, inline=inl, call_hook=self.call_hook, may_fork=(), heap=True, max_depth=16)
         self.ri.dispatch_instances = True
         self.ri.on_attr = self.on_attr  # type: ignore[method-assign]
